@@ -166,6 +166,35 @@ def to_number(value: JSValue) -> Union[int, float]:
     return float("nan")
 
 
+def _number_to_string(value: float) -> str:
+    """Number::toString(x, 10) for a finite non-zero double.
+
+    repr() yields the shortest digits that round-trip; ECMAScript lays them
+    out differently from Python (exponent form only outside [1e-6, 1e21),
+    written e+21 / e-7 without zero padding).
+    """
+    sign = "-" if value < 0 else ""
+    mantissa, _, exponent = repr(abs(value)).partition("e")
+    int_part, _, frac_part = mantissa.partition(".")
+    digits = int_part + frac_part
+    n = len(int_part) + (int(exponent) if exponent else 0)
+    stripped = digits.lstrip("0")
+    n -= len(digits) - len(stripped)
+    digits = stripped.rstrip("0")
+    k = len(digits)
+    if k <= n <= 21:
+        return sign + digits + "0" * (n - k)
+    if 0 < n <= 21:
+        return sign + digits[:n] + "." + digits[n:]
+    if -6 < n <= 0:
+        return sign + "0." + "0" * (-n) + digits
+    e = n - 1
+    exp_text = ("+" if e >= 0 else "-") + str(abs(e))
+    if k == 1:
+        return sign + digits + "e" + exp_text
+    return sign + digits[0] + "." + digits[1:] + "e" + exp_text
+
+
 def to_string(value: JSValue) -> str:
     """Convert a JavaScript value to string."""
     if value is UNDEFINED:
@@ -175,7 +204,12 @@ def to_string(value: JSValue) -> str:
     if isinstance(value, bool):
         return "true" if value else "false"
     if isinstance(value, int):
-        return str(value)
+        if -(2**53) <= value <= 2**53:
+            return str(value)
+        try:
+            value = float(value)  # numbers are doubles: print the nearest one
+        except OverflowError:
+            return "Infinity" if value > 0 else "-Infinity"
     if isinstance(value, float):
         if is_nan(value):
             return "NaN"
@@ -183,14 +217,9 @@ def to_string(value: JSValue) -> str:
             return "Infinity"
         if value == float("-inf"):
             return "-Infinity"
-        # Handle -0
-        if value == 0 and math.copysign(1, value) < 0:
-            return "0"
-        # Format float nicely
-        s = repr(value)
-        if s.endswith(".0"):
-            return s[:-2]
-        return s
+        if value == 0:
+            return "0"  # also for -0
+        return _number_to_string(value)
     if isinstance(value, str):
         return value
     # TODO: Handle objects with toString
